@@ -1,5 +1,5 @@
-import CfrVerif.Proofs.Rate
-import CfrVerif.Proofs.GameWF
+import CfrVerif.Proofs.RateSolve
+import CfrVerif.Props.C05
 /-!
 # C04 — convergence of the sampled solvers: what is a theorem, and what is not
 
@@ -10,6 +10,14 @@ parameters, every budget and threshold:
   CFR rate `2·D·n_p·√A/√T` *pathwise* — regret matching drives the sampled cumulative regrets
   whatever the draws are, because every sampled regret increment is orthogonal to the current
   strategy and bounded by the payoff range.
+
+**Added hypothesis `hdraw`** (both theorems are false without it, see `C04.sampled_needs_hdraw` and
+`C04.external_needs_hdraw` below): the draw oracle returns an index *into the weight list it is
+given*.  The model lets an oracle answer anything; for an index past the last outcome `vrecNth` /
+`erecNth` return the value `0` with no effect (in the crate `chance.outcomes[ind]` would panic), and
+`0` need not lie in the payoff range `[lo, hi]`, so a single sampled regret increment can exceed
+`hi − lo`.  Every oracle that models a sampler (`WeightedIndex`, the harness's replayed draws)
+satisfies `hdraw`.
 
 Not a theorem: that the *true* regret of the returned profile is below `D·N·√A/√T` "with
 overwhelming probability" (a martingale concentration statement over the adaptive draw process,
@@ -22,20 +30,137 @@ namespace Cfr
 
 /-- chance-sampled CFR: the bounds obey the CFR rate for every draw sequence -/
 theorem sampled_bound_pathwise (g : Game ℝ) (hg : GameWF g) (lo hi : ℝ) (hpay : PayIn lo hi g.root)
-    (A : Nat) (hA : ActsLe g A) (draw : DrawFn ℝ) (T : Nat) (thr : Option (Ext ℝ)) :
+    (A : Nat) (hA : ActsLe g A) (draw : DrawFn ℝ)
+    (hdraw : ∀ k i pass (ws : List ℝ), ws ≠ [] → draw k i pass ws < ws.length)
+    (T : Nat) (thr : Option (Ext ℝ)) :
     RateOK (hi - lo) g.p1.length A (solveVanillaSingle g true RegretParams.vanilla draw T thr).iters
       (solveVanillaSingle g true RegretParams.vanilla draw T thr).regOne ∧
     RateOK (hi - lo) g.p2.length A (solveVanillaSingle g true RegretParams.vanilla draw T thr).iters
-      (solveVanillaSingle g true RegretParams.vanilla draw T thr).regTwo := by
-  sorry
+      (solveVanillaSingle g true RegretParams.vanilla draw T thr).regTwo :=
+  vanilla_rate g hg lo hi hpay A hA true draw (fun _ => hdraw) T thr
 
 /-- external-sampled CFR: the bounds obey the CFR rate for every draw sequence -/
 theorem external_bound_pathwise (g : Game ℝ) (hg : GameWF g) (lo hi : ℝ) (hpay : PayIn lo hi g.root)
-    (A : Nat) (hA : ActsLe g A) (draw : DrawFn ℝ) (T : Nat) (thr : Option (Ext ℝ)) :
+    (A : Nat) (hA : ActsLe g A) (draw : DrawFn ℝ)
+    (hdraw : ∀ k i pass (ws : List ℝ), ws ≠ [] → draw k i pass ws < ws.length)
+    (T : Nat) (thr : Option (Ext ℝ)) :
     RateOK (hi - lo) g.p1.length A (solveExternalSingle g RegretParams.vanilla draw T thr).iters
       (solveExternalSingle g RegretParams.vanilla draw T thr).regOne ∧
     RateOK (hi - lo) g.p2.length A (solveExternalSingle g RegretParams.vanilla draw T thr).iters
-      (solveExternalSingle g RegretParams.vanilla draw T thr).regTwo := by
-  sorry
+      (solveExternalSingle g RegretParams.vanilla draw T thr).regTwo :=
+  external_rate g hg lo hi hpay A hA draw hdraw T thr
+
+/-! ## `hdraw` is necessary -/
+
+/-- payoffs in `[5, 6]`: player one chooses between a coin flip over `5` / `6` and a sure `5` -/
+noncomputable def C04.cexGame : Game ℝ :=
+  ⟨[[1 / 2, 1 / 2]], [⟨0, [0, 1], none⟩], [], [], [],
+    .player true 0 [.chance 0 [.term 5, .term 6], .term 5]⟩
+
+theorem C04.cexGame_wf : GameWF C04.cexGame where
+  chancePos := by
+    intro ps hps
+    simp only [C04.cexGame, List.mem_singleton] at hps
+    subst hps
+    constructor
+    · intro p hp
+      simp only [List.mem_cons, List.not_mem_nil, or_false, or_self] at hp
+      subst hp; norm_num
+    · norm_num
+  nodes := by simp [C04.cexGame, NodeOK, NodeOKL, Game.infos]
+  recall := by
+    intro me
+    refine ⟨fun _ => [], ?_, by simp⟩
+    cases me <;> simp [C04.cexGame, PR, PRL, PRD]
+  tables1 := ⟨by simp [C04.cexGame], by simp [C04.cexGame], by simp [C04.cexGame],
+    by simp [C04.cexGame]⟩
+  tables2 := ⟨by simp [C04.cexGame], by simp [C04.cexGame], by simp [C04.cexGame],
+    by simp [C04.cexGame]⟩
+  actsTwo := by
+    intro me e he
+    cases me
+    · simp [C04.cexGame, Game.infos] at he
+    · simp only [C04.cexGame, Game.infos, if_true, List.mem_singleton] at he
+      subst he; simp
+
+theorem C04.cexGame_payIn : PayIn 5 6 C04.cexGame.root := by
+  simp only [C04.cexGame, PayIn, PayInL]
+  norm_num
+
+theorem C04.cexGame_actsLe : ActsLe C04.cexGame 2 := by
+  intro me e he
+  cases me
+  · simp [C04.cexGame, Game.infos] at he
+  · simp only [C04.cexGame, Game.infos, if_true, List.mem_singleton] at he
+    subst he; simp
+
+theorem C04.five_above_rate : ¬ RateOK (6 - 5) C04.cexGame.p1.length 2 1 (.fin 5) := by
+  simp only [RateOK, not_le, C04.cexGame, List.length_singleton, Nat.cast_one, Real.sqrt_one]
+  have h2 : Real.sqrt (2 : ℝ) < 2 := by
+    rw [Real.sqrt_lt' (by norm_num)]; norm_num
+  norm_num
+  linarith
+
+/-- with the oracle that always answers `7` the coin flip is sampled out of range, its value
+reads `0 ∉ [5, 6]`, and after one iteration player one's bound is `5 > 2·1·1·√2` -/
+theorem C04.sampled_needs_hdraw :
+    ¬ RateOK (6 - 5) C04.cexGame.p1.length 2
+      (solveVanillaSingle C04.cexGame true RegretParams.vanilla (fun _ _ _ _ => 7) 1 none).iters
+      (solveVanillaSingle C04.cexGame true RegretParams.vanilla (fun _ _ _ _ => 7) 1 none).regOne := by
+  have e1 : (solveVanillaSingle C04.cexGame true RegretParams.vanilla (fun _ _ _ _ => 7) 1
+      none).regOne = .fin 5 := by
+    simp [solveVanillaSingle, solveWith, solveLoop, vanillaIter, vrec, vrecNth, vrecActs,
+      sampleChance, assocGet, SolveSt.init, InfoSt.new, SolveSt.strat, SolveSt.get, stratEffs,
+      subEffs, SolveSt.applyEffs, SolveSt.applyEff, SolveSt.set, InfoSt.apply, addAt, advanceAll,
+      InfoSt.advance, discountCumRegret, genDiscount, RegretParams.vanilla, cumRegretBound, maxD,
+      fmax, two, belowThreshold, C04.cexGame, regretMatch, discountAverageStrat, List.range_succ]
+    norm_num
+  have e2 : (solveVanillaSingle C04.cexGame true RegretParams.vanilla (fun _ _ _ _ => 7) 1
+      none).iters = 1 := by
+    simp [solveVanillaSingle, solveWith, solveLoop, belowThreshold]
+  rw [e1, e2]
+  exact C04.five_above_rate
+
+/-- the same for external sampling -/
+theorem C04.external_needs_hdraw :
+    ¬ RateOK (6 - 5) C04.cexGame.p1.length 2
+      (solveExternalSingle C04.cexGame RegretParams.vanilla (fun _ _ _ _ => 7) 1 none).iters
+      (solveExternalSingle C04.cexGame RegretParams.vanilla (fun _ _ _ _ => 7) 1 none).regOne := by
+  have e1 : (solveExternalSingle C04.cexGame RegretParams.vanilla (fun _ _ _ _ => 7) 1
+      none).regOne = .fin 5 := by
+    simp [solveExternalSingle, solveWith, solveLoop, externalIter, externalPass, erec, erecNth,
+      erecActs, sampleChance, samplePlayer, assocGet, SolveSt.init, InfoSt.new, SolveSt.strat,
+      SolveSt.get, subEffsE, SolveSt.applyEffs, SolveSt.applyEff, SolveSt.set,
+      InfoSt.apply, addAt, advanceAll, InfoSt.advance, discountCumRegret, genDiscount,
+      RegretParams.vanilla, cumRegretBound, maxD, fmax, two, belowThreshold, C04.cexGame,
+      regretMatch, discountAverageStrat, List.range_succ]
+    norm_num
+  have e2 : (solveExternalSingle C04.cexGame RegretParams.vanilla (fun _ _ _ _ => 7) 1
+      none).iters = 1 := by
+    simp [solveExternalSingle, solveWith, solveLoop, belowThreshold]
+  rw [e1, e2]
+  exact C04.five_above_rate
+
+/-! ## the hypotheses are satisfiable (non-vacuity) -/
+
+/-- both theorems apply to a concrete game and a concrete in-range oracle (always the first
+outcome), for every budget and threshold -/
+example (T : ℕ) (thr : Option (Ext ℝ)) :
+    (RateOK (1 - -1) 1 2
+      (solveVanillaSingle C05.tinyGame true RegretParams.vanilla (fun _ _ _ _ => 0) T thr).iters
+      (solveVanillaSingle C05.tinyGame true RegretParams.vanilla (fun _ _ _ _ => 0) T thr).regOne) ∧
+    (RateOK (1 - -1) 1 2
+      (solveExternalSingle C05.tinyGame RegretParams.vanilla (fun _ _ _ _ => 0) T thr).iters
+      (solveExternalSingle C05.tinyGame RegretParams.vanilla (fun _ _ _ _ => 0) T thr).regTwo) := by
+  have hp : PayIn (-1) 1 C05.tinyGame.root := by
+    simp only [C05.tinyGame, PayIn, PayInL]; norm_num
+  have hA : ActsLe C05.tinyGame 2 := by
+    intro me e he
+    cases me <;> simp only [C05.tinyGame, Game.infos, if_true, Bool.false_eq_true, if_false,
+      List.mem_singleton] at he <;> subst he <;> simp
+  have hd : ∀ k i pass (ws : List ℝ), ws ≠ [] → (fun _ _ _ _ => 0 : DrawFn ℝ) k i pass ws
+      < ws.length := fun _ _ _ ws h => List.length_pos_of_ne_nil h
+  exact ⟨(sampled_bound_pathwise C05.tinyGame C05.tinyGame_wf (-1) 1 hp 2 hA _ hd T thr).1,
+    (external_bound_pathwise C05.tinyGame C05.tinyGame_wf (-1) 1 hp 2 hA _ hd T thr).2⟩
 
 end Cfr
